@@ -231,7 +231,7 @@ def gen_histories(ctx, g, n):
     rng = Rng(ctx.seed, 152)
     out = []
     for k in range(n):
-        kind = "PWXE"[k % 4] if k % 8 < 6 else "PE"[k % 2]        # more parser / encoder histories
+        kind = "PWXE"[k % 4] if k % 8 < 6 else "PEF"[k % 3]       # more parser / encoder / flow-mode encoder histories
         ops = []
         ln = rng.range(2, 8)
         for _ in range(ln):
@@ -248,6 +248,15 @@ def gen_histories(ctx, g, n):
                 if rng.chance(1, 4):
                     ops.append(rng.choice(["V%d" % rng.below(4), "K", "S", "A"]))
                 ops.append("d%d" % pick_x(rng, g))
+            elif kind == "F":
+                if rng.chance(1, 3):
+                    ops.append(rng.choice(["i%d" % rng.below(2), "b%d" % rng.below(2), "a%d" % rng.below(2), "v%d" % rng.below(4),
+                                           "g%d" % rng.below(3), "n%d" % rng.choice([0, 1, 2]), "p%d" % rng.below(2)]))
+                src = rng.choice(g["x"]) if rng.chance(1, 2) else rng.choice(g["w"] + g["wn"])
+                op = rng.choice("wxWX") + str(src)
+                if rng.chance(1, 4):
+                    op += "!%d" % rng.below(40)
+                ops.append(op)
             else:
                 if rng.chance(1, 3):
                     ops.append(rng.choice(["i%d" % rng.below(2), "b%d" % rng.below(2), "c%d" % rng.choice([0, 3, 106]),
@@ -321,13 +330,23 @@ def systematic_histories(docs, g):
             for c in texty[:5]:
                 for k in (1, 3, 6):
                     out.append("%s x%d!%d " % (pre, c, k) + " ".join("x%d" % t for t in texty))
+    # FLOW MODE encoder (wbxml_encoder_set_flow_mode; nodes fed by the caller, wbxml_encoder_get_output, reset): documents
+    # of different languages and changed settings between the resets, a failed node before a reset; whole root (w/x)
+    # and root opened raw + children (W/X); the header (public id / DOCTYPE) must be the one of the current document
+    flow_docs = reps[:8] + g.get("xhand", [])[:2]
+    for a in flow_docs:
+        for b in flow_docs:
+            if a != b:
+                out.append("F w%d w%d x%d x%d" % (a, b, a, b))
+        out.append("F x%d g1 n2 x%d v1 w%d p1 w%d a1 w%d" % (a, a, a, a, a))
+        out.append("F W%d X%d W%d!3 X%d w%d!2 w%d" % (a, flow_docs[0], a, a, flow_docs[-1], a))
     return out
 
 
 def doc_ids(line):
     ids = []
     for t in line.split()[1:]:
-        if t[0] in "dwx" and t[1:2].isdigit():
+        if t[0] in "dwxWX" and t[1:2].isdigit():
             ids.append(int(t[1:].split("!")[0]))
     return ids
 
@@ -350,7 +369,7 @@ def judge(line, ans, stats):
     if ans is None:
         return [("violation", {"what": "no answer (crash?)"})]
     parts = ans.split()
-    runs = [t for t in toks[1:] if t[0] in "dwx"]
+    runs = [t for t in toks[1:] if t[0] in "dwxWX"]
     if len(parts) != len(runs) or "bad" in parts:
         return [("violation", {"what": "harness answered %d runs for %d" % (len(parts), len(runs)), "answer": ans[:300]})]
     lang = meta = 0
@@ -362,7 +381,7 @@ def judge(line, ans, stats):
         if kind == "P" and t[0] == "M":
             meta = int(t[1:])
             continue
-        if t[0] not in "dwx":
+        if t[0] not in "dwxWX":
             continue
         a = parts[ri]
         ri += 1
@@ -399,7 +418,7 @@ def judge(line, ans, stats):
             if ri > 1:
                 stats["nontrivial"].add((kind, t, prev_run, fl))
             if r != f:
-                to_wbxml = t[0] == "w"
+                to_wbxml = t[0] in "wW"
                 rs, fs = r.split("/")[0], f.split("/")[0]
                 if s == f and any(c in fl for c in "NILU") and "S" not in fl and "O" not in fl:
                     if "N" in fl and to_wbxml and rs != "0":      # fresh succeeds, or fails later with another code
@@ -449,7 +468,11 @@ def tie(ctx, harness, driver, docs, g, fixed_world):
                     ops.append(("x" if rng.chance(2, 3) else "w") + str(rng.choice(g["xcdata"])) + "!c%d" % rng.below(2))
                 else:
                     ops.append(("x" if rng.chance(1, 2) else "w") + str(src) + ("!%d" % rng.below(30) if rng.chance(1, 3) else ""))
-            lines.append("ed " + " ".join(ops))
+            if k % 6 == 5:      # a Flow-Mode encoder: no string-table switch, runs through the node API
+                ops = [o.upper() if (o[0] in "wx" and rng.chance(1, 2)) else o for o in ops if o[0] != "s"]
+                lines.append("fd " + " ".join(ops))
+            else:
+                lines.append("ed " + " ".join(ops))
     ans, crashes = common.run_lines(harness, lines, env=docs.env())
     q, where = [], []           # driver questions, and (line index, what, expected C value)
     dirty = {}
@@ -482,7 +505,7 @@ def tie(ctx, harness, driver, docs, g, fixed_world):
                 where.append((li, "enc_reset_fixed" if fixed_world else "enc_reset", post_reset))
                 q.append("ederive %s %s %s %s" % (pre, tl, tc, ot)); where.append((li, "enc_derive", (pre, ot, st, post_run)))
                 vals = post_run.split(",")
-                for name, idx in (("output", 2), ("current_tag", 4), ("current_node", 7), ("tagCodePage", 8), ("attrCodePage", 9),
+                for name, idx in (("output", 2), ("output_header", 3), ("current_tag", 4), ("current_node", 7), ("tagCodePage", 8), ("attrCodePage", 9),
                                   ("indent", 15), ("in_content", 16), ("in_cdata", 17), ("cdata", 18), ("strstbl_len", 20)):
                     if vals[idx] != "0":
                         dirty["encoder." + name] = dirty.get("encoder." + name, 0) + 1
